@@ -147,6 +147,38 @@ func deepDefs(v ssa.Value, scope []*ssa.Function) []ssa.Value {
 				return
 			}
 		case *ssa.UnOp:
+			// load of a captured variable: the cell it is bound to
+			if fv, ok := x.X.(*ssa.FreeVar); ok && x.Op == token.MUL {
+				lit := fv.Parent()
+				idx := -1
+				for i, f := range lit.FreeVars {
+					if f == fv {
+						idx = i
+					}
+				}
+				var cells []*ssa.Alloc
+				for _, f := range scope {
+					ssau.Instrs(f, func(in ssa.Instruction) {
+						if mc, ok := in.(*ssa.MakeClosure); ok && mc.Fn == ssa.Value(lit) && idx >= 0 && idx < len(mc.Bindings) {
+							if al, isAl := mc.Bindings[idx].(*ssa.Alloc); isAl {
+								cells = append(cells, al)
+							}
+						}
+					})
+				}
+				n := 0
+				for _, al := range cells {
+					for _, r := range ssau.Referrers(al) {
+						if st, ok := r.(*ssa.Store); ok && st.Addr == ssa.Value(al) {
+							n++
+							rec(st.Val, depth+1)
+						}
+					}
+				}
+				if n > 0 {
+					return
+				}
+			}
 			// load of a local variable cell: the values stored into it (here and in literals that capture it)
 			if al, ok := x.X.(*ssa.Alloc); ok && x.Op == token.MUL {
 				n := 0
